@@ -769,7 +769,10 @@ struct {group}Container<CGlueInst, void> {{
     // Create CGlueTraitObj vtable functions
     let mut trait_obj_specs = String::new();
 
-    for v in &vtbls {
+    // Headers that only export groups do not declare the CGlueTraitObj template
+    let has_trait_obj = header.contains("struct CGlueTraitObj {");
+
+    for v in vtbls.iter().filter(|_| has_trait_obj) {
         trait_obj_specs.push_str(&format!(
             r"
 template<typename T, typename C, typename R>
